@@ -178,6 +178,33 @@ def worker(idx, nworkers, tier, seed, extra):
             world_hostile(w, rnd, mon)
     finally:
         w.close()
+    # the first use of the login code in the life of a process, made on 16 threads at the same moment (a server that was
+    # just restarted): a fresh executor per trial, the burst is its very first command
+    for trial in range({"quick": 3, "thorough": 40}[tier]):
+        mode = "server" if (idx + trial) % 2 == 0 else "client"
+        fw = Wsx()
+        try:
+            ev = fw.call("mt_first_use", threads=16, mode=mode)
+            mon.ev(17)
+            mon.count("first_use_bursts_in_fresh_processes")
+            rp = {"engine": "wsx", "kind": "raw", "commands": [ev.cmd]}
+            if ev.status != "ok":
+                mon.violation("c14:panic:first_use_burst:" + mode, "the burst itself failed: %s" % str(ev.f)[:300], rp)
+                continue
+            res = ev.f.get("results", "").split(",")
+            bad = [r for r in res if r.startswith("panic")]
+            if bad:
+                mon.violation("c14:panic:first_use_under_contention:" + mode,
+                              "%d of %d %s-side calls that were the first of their process and arrived at the same moment panicked: %s" % (
+                                  len(bad), len(res), mode, bad[0][:200]), rp)
+            elif not ev.f.get("after", "").startswith("ok"):
+                mon.violation("c14:first_use:login_afterwards:" + mode, "the sequential honest login after the burst: %s" % ev.f.get("after", "")[:200], rp)
+            else:
+                mon.cell(("first_use_burst", mode))
+        except ExecutorDied as e:
+            mon.violation("c14:executor_died", "executor process died in a first-use burst rc=%s" % e.rc, {"engine": "wsx", "kind": "raw", "commands": e.last_cmds})
+        finally:
+            fw.close()
     return mon
 
 
